@@ -45,6 +45,15 @@ PROPS = {
         assumptions=["monotonicity is proved for fully turbulent (k_lam = 0) and fully laminar (k_lam = 1) sections; "
                      "mixed laminar fractions are examined numerically by the oracle only"],
     ),
+    "C01": dict(
+        components="ALL",
+        history_components="ALL",
+        jacobian_components="ALL_JAC",
+        oracle_cases=dict(quick=2, thorough=10),
+        assumptions=["non-degenerate meshes, positive section properties, subsonic Mach; generators keep a guard band around the documented "
+                     "non-smooth points (wave-drag onset, the 1e-6 N zeroing threshold, zero rotation differences in the tube stress)",
+                     "partials declared method='cs'/'fd' are OpenMDAO's approximations of compute()"],
+    ),
     "C03": dict(
         components=["MomentCoefficient", "VortexMesh", "ViscousDrag", "WaveDrag", "LoadTransfer", "Taper", "ScaleX", "Rotate", "Stretch",
                     "StructWeightLoads", "Horseshoe", "VonMisesTube", "VLMGeometry"],
@@ -115,6 +124,10 @@ from .specs import SPECS as _SPECS
 for k, v in PROPS.items():
     if v.get("history_components") == "ALL":
         v["history_components"] = sorted(_SPECS)
+    if v.get("components") == "ALL":
+        v["components"] = sorted(_SPECS)
+    if v.get("jacobian_components") == "ALL_JAC":
+        v["jacobian_components"] = sorted(k for k, sp in _SPECS.items() if sp["jac"])
     v["theorems"] = THEOREMS.get(k, {}).get("theorems", [])
     v["modules"] = THEOREMS.get(k, {}).get("modules", ["OASProofs.Props." + k])
     v["generated"] = THEOREMS.get(k, {}).get("generated", [])
